@@ -111,3 +111,30 @@ package node
 //@   modifies nothing
 //@   ensures result == (r.Type == other.Type && r.Namespace == other.Namespace && (r.Version == other.Version || r.Version == other.Version + 1 || (other.Version == 18446744073709551615 && r.Version == 0)))
 //@   note a root follows another iff same type and namespace and the version is equal or the direct successor (the successor is computed in uint64 arithmetic, so version 0 'follows' version 2^64-1)
+
+// ---- key primitives (C03, C02): bit addressing stays inside the key; Depth is 16 bits ----
+
+//@ func Key.BitLength
+//@   props C03
+//@   safety conv
+//@   modifies nothing
+//@   ensures int(result) == 8 * len(k)
+//@   note Depth is uint16: the bit length of a key of 8192 or more bytes does not fit; the conversion obligation states that it must (the tree accepts keys of any length at its public entry points)
+
+//@ func Key.GetBit
+//@   props C03
+//@   safety bounds
+//@   requires int(bit) < 8 * len(k)
+//@   modifies nothing
+
+//@ func Key.SetBit
+//@   props C03
+//@   safety bounds
+//@   requires int(bit) < 8 * len(k)
+//@   ensures len(result) == len(k)
+
+//@ func Key.AppendBit
+//@   props C03
+//@   safety bounds
+//@   requires 8 * len(k) >= int(keyLen) && len(k) <= div(int(keyLen), 8) + 1 && int(keyLen) < 65535
+//@   ensures len(result) == div(int(keyLen) + 8, 8)
